@@ -487,6 +487,28 @@ class InferAllComprehension(InferComprehensionBase):
   reference_inference_class = InferAllReference
 
 
+class InferRefListComprehension(InferenceTip):
+  """
+  Inference helper to treat the loop variable of a comprehension over a reference list, as in
+  `[x.Name for x in $Friends]`, as an instance of the referenced table. (The reference list itself
+  is inferred as such an instance too, see InferReferenceColumn.)
+  """
+  node_class = astroid.nodes.AssignName
+
+  @classmethod
+  def filter(cls, node):
+    compr = node.parent
+    return (isinstance(compr, astroid.nodes.Comprehension) and compr.target is node and
+            isinstance(compr.iter, astroid.nodes.Attribute))
+
+  @classmethod
+  def infer(cls, node, context=None):
+    obj = infer(node.parent.iter)
+    if isinstance(obj, astroid.bases.Instance) and _is_table(obj._proxied):
+      return iter([obj])
+    raise astroid.exceptions.UseInferenceDefault()
+
+
 class InferRecAssignment(InferenceTip):
   """
   Inference helper to raise exception on assignment to `rec`.
@@ -536,7 +558,7 @@ def parse_grist_names(builder):
 
   with use_inferences(InferReferenceColumn, InferReferenceFormula, InferLookupReference,
                       InferLookupComprehension, InferAllReference, InferAllComprehension,
-                      InferLookupFindResult, InferPrevNextResult):
+                      InferLookupFindResult, InferPrevNextResult, InferRefListComprehension):
     atok = asttokens.ASTText(code_text, tree=astroid.builder.parse(code_text))
 
   def make_tuple(start, end, table_id, col_id):
